@@ -6,6 +6,7 @@ use crate::ctx::{Ctx, Monitors};
 
 pub mod e1;
 pub mod e5;
+pub mod e6;
 
 #[derive(Clone, Copy, Debug, PartialEq, Eq)]
 pub enum Tier {
@@ -89,6 +90,16 @@ pub fn spec(prop: &str, tier: Tier) -> Option<PropSpec> {
             exhaustive: false,
             rule: RULE_E1,
         },
+        "C20" => PropSpec {
+            id: "C20",
+            level: "exploration",
+            batches: vec![
+                Batch { engine: "e6", profile: "debug", runs: e6::uctx_exhaustive(tier).0 + if q { 60_000 } else { 3_000_000 } },
+                Batch { engine: "e6", profile: "release", runs: e6::uctx_exhaustive(tier).0 + if q { 140_000 } else { 12_000_000 } },
+            ],
+            exhaustive: false,
+            rule: "one evaluation = one history executed on long-lived state with every step mirrored on fresh state under the same step-relative fault plan; the first block enumerates exhaustively all fault-free UnwindContext histories up to length 2 (quick) / 3 (thorough) over a fixed 16-FDE x 5-step-kind alphabet, the rest are seeded random histories over six families (unwind context, entry buffer, tree re-root, clones, sequence resume, abbreviation cache); non-trivial = the reusable object was exercised (>=1 item) AND (a step failed by an injected fault OR the history ran to its end); distinct = distinct event-stream digests",
+        },
         "C17" => PropSpec {
             id: "C17",
             level: "fault_enumeration",
@@ -122,6 +133,7 @@ pub fn gen_case(engine: &str, prop: &str, tier: Tier, master: u64, i: u64) -> Ca
     match engine {
         "e1" => e1::gen_case(prop, tier, master, i),
         "e5" => e5::gen_case(i),
+        "e6" => e6::gen_case(tier, master, i),
         _ => panic!("unknown engine {}", engine),
     }
 }
@@ -131,6 +143,7 @@ pub fn dispatch(case: &Case, ctx: &mut Ctx<'_>) {
     match case.engine.as_str() {
         "e1" => e1::run(case, ctx),
         "e5" => e5::run(case, ctx),
+        "e6" => e6::run(case, ctx),
         other => panic!("unknown engine {}", other),
     }
 }
